@@ -46,12 +46,15 @@ func termOracle(sp *Spec, x *X, writes []OutWrite, w, h int) (string, string, *t
 	t := NewTerm(w, h)
 	var persisted []string
 	term := map[int]int{}
-	succ := map[int]bool{}
-	for _, bs := range sp.Bars {
+	// a bar with another bar queued behind it hands its place over instead of being popped; a successor declared by
+	// the program counts from the moment its Add was invoked (a bar queued behind an already popped bar changes nothing)
+	succOf := map[int]int{}
+	for i, bs := range sp.Bars {
 		if bs.After > 0 {
-			succ[bs.After-1] = true
+			succOf[bs.After-1] = i
 		}
 	}
+	succ := map[int]bool{}
 	for fi, wr := range writes {
 		if wr.Data == "!ERR" {
 			continue
@@ -61,6 +64,11 @@ func termOracle(sp *Spec, x *X, writes []OutWrite, w, h int) (string, string, *t
 		for _, id := range f.BarIDs() {
 			if r := f.Row(id); r.Flags != "R" {
 				term[id]++
+			}
+		}
+		for pred, sc := range succOf {
+			if inv, _, added := addRet(x, sc); added && (wr.Step == 0 || inv < wr.Step) {
+				succ[pred] = true
 			}
 		}
 		var live []string
@@ -514,6 +522,16 @@ func c18Programs(tier string) []*Spec {
 				out = append(out, sp)
 			}
 		}
+	}
+	// a bar queued behind a bar that has already been popped (never started by the library as it is: a recorded finding
+	// of C17); whatever becomes of it, the bars that finish later are still popped above everything that runs
+	{
+		sp := &Spec{Name: "c18-queued-behind-a-popped-bar", Refresh: "manual", Q: -1, Pop: true}
+		sp.Bars = []BarSpec{{Total: 1}, {Total: 1}, {Total: 9}, {Total: 9, After: 1}}
+		sp.Main = []Op{{K: "add", B: 0}, {K: "add", B: 1}, {K: "add", B: 2}, {K: "refresh"}, {K: "incr", B: 0, N: 1}, {K: "refresh"}, {K: "refresh"}, {K: "refresh"}, {K: "refresh"},
+			{K: "add", B: 3}, {K: "refresh"}, {K: "refresh"}, {K: "incr", B: 1, N: 1}, {K: "refresh"}, {K: "refresh"}, {K: "refresh"}, {K: "refresh"},
+			{K: "incr", B: 2, N: 9}, {K: "incr", B: 3, N: 9}, {K: "refresh"}, {K: "refresh"}, {K: "refresh"}, {K: "refresh"}}
+		out = append(out, sp)
 	}
 	// a running bar pinned with a large negative priority stays below the popped bars all the same
 	for _, rf := range []string{"manual", "auto"} {
